@@ -24,9 +24,11 @@ Denote(t) == IF t.pairs # <<>> THEN {<<t.pairs[i].ip, t.pairs[i].port>> : i \in 
 Mult(t, k) == IF t.pairs # <<>> THEN Cardinality({i \in 1..Len(t.pairs) : <<t.pairs[i].ip, t.pairs[i].port>> = k})
               ELSE IF t.ranges = <<>> THEN 1 ELSE PortCount(t.ranges, k[2])
 \* C01 / C02: exactly one probe per denoted (address, port), with multiplicity; nothing else
-CoverageOK(e) == LET x == e.expect keys == [i \in 1..Len(e.probes) |-> DstOf(x, e.probes[i])] IN
-   /\ {keys[i] : i \in 1..Len(keys)} = Denote(x.target)
-   /\ \A k \in Denote(x.target) : Cardinality({i \in 1..Len(keys) : keys[i] = k}) = Mult(x.target, k)
+AllOnce(t) == IF t.pairs # <<>> THEN Cardinality(Denote(t)) = Len(t.pairs) ELSE \A i, j \in 1..Len(t.ranges) : i # j => (t.ranges[i].hi < t.ranges[j].lo \/ t.ranges[j].hi < t.ranges[i].lo)
+CoverageOK(e) == LET x == e.expect keys == [i \in 1..Len(e.probes) |-> DstOf(x, e.probes[i])] KS == {keys[i] : i \in 1..Len(keys)} IN
+   /\ KS = Denote(x.target)
+   /\ IF AllOnce(x.target) THEN Cardinality(KS) = Len(keys)              \* every key once: no probe repeated (cheap form for big scans)
+      ELSE \A k \in Denote(x.target) : Cardinality({i \in 1..Len(keys) : keys[i] = k}) = Mult(x.target, k)
 \* C17 / C05: every probe carries the expected source MAC / IP (and destination MAC)
 \* C11: when the destination MACs come from an ARP cache, each probe goes to the entry of its own destination address
 DstMacFor(x, b) == LET S == {i \in 1..Len(x.dstmacs) : x.dstmacs[i].ip = SubSeq(b, 31, 34)} IN
@@ -89,6 +91,18 @@ LiveOK(e) == LET x == e.expect n == x.naddr full == Len(e.probes) \div n IN
    /\ \A i, j \in 1..Len(e.records) : i # j => e.records[i].ip # e.records[j].ip
    /\ {e.records[i].ip : i \in 1..Len(e.records)} = {SubSeq(e.injected[i].bytes, 29, 32) : i \in {k \in 1..Len(e.injected) : e.injected[k].done}}
    /\ (e.sigintT > 0 => e.exitT <= e.sigintT + ExitBound)
+\* an interface flap during the scan: write and poll errors are reported, but the scan goes on - a reply after the flap is printed, every
+\* probe is one of the target, the process ends by itself after its exit delay
+FlapOK(e) == LET x == e.expect inj == {i \in 1..Len(e.injected) : e.injected[i].done /\ e.injected[i].t > e.flapT} IN
+   /\ e.exit = 0 /\ e.flapT > 0
+   /\ \A i \in 1..Len(e.probes) : DstOf(x, e.probes[i]) \in Denote(x.target)
+   /\ \E i \in 1..Len(e.probes) : e.probes[i].t > e.flapT
+   /\ \A i \in inj : WD!ReplyShape(CfgAt(e, e.injected[i].t), e.injected[i].bytes) =>
+          \E k \in 1..Len(e.records) : RecMatches(x, e.records[k], WD!RecordOf(CfgAt(e, e.injected[i].t), e.injected[i].bytes))
+LiveFlapOK(e) == LET x == e.expect after == {i \in 1..Len(e.probes) : e.probes[i].t > e.flapT + 500000} IN
+   /\ e.flapT > 0 /\ e.sigintT > e.flapT /\ e.exitT >= e.sigintT /\ e.exitT <= e.sigintT + ExitBound
+   /\ Cardinality(after) >= x.minPasses * x.naddr                                    \* passes keep coming after the flap
+   /\ \A i \in 1..Len(e.probes) : DstOf(x, e.probes[i])[1] \in Addrs(x.target)
 Clean(e) == ~e.panic /\ ~e.killed /\ e.stdoutComplete /\ e.drops = 0
 \* Each property's check looks at its own clause (VF_FOCUS); a run that crashed, hung or lost capture data is judged by the "clean" focus
 \* only (its other observations are incomplete).
@@ -104,6 +118,8 @@ RunOK(e) == LET x == e.expect IN
           [] x.kind = "apphttp" -> (F("coverage") => e.exit = 0 /\ ConnsHttpOK(e))
           [] x.kind = "apptime" -> (F("time") => TimeOK(e))
           [] x.kind = "live" -> (F("live") => LiveOK(e))
+          [] x.kind = "liveflap" -> (F("live") => LiveFlapOK(e))
+          [] x.kind = "flap" -> (F("reply") \/ F("clean") => FlapOK(e))
           [] x.kind = "packetbusy" -> /\ (F("coverage") => e.exit = 0 /\ CoverageOK(e))       \* replies flood the wire: coverage and delay only
                                       /\ (F("delay") => DelayOK(e))
           [] x.kind = "packet" -> /\ (F("coverage") => e.exit = 0 /\ CoverageOK(e))
